@@ -399,8 +399,49 @@ void mutated()
     self->did_mutate = true;
 }
 
+// Real-time watchdog: the baton scheduler only sees the operations of the shimmed primitives.  If the code
+// under test blocks in (or spins on) something else, no scheduling point is ever reached again and the
+// process would hang until the driver's timeout.  Leave with status 5 instead (the driver reports a broken
+// check: the engine cannot decide whether this is a deadlock of the code or a primitive it does not control).
+static std::atomic<unsigned long> g_progress{0};
+static void start_watchdog()
+{
+  static bool started = false;
+  if (started)
+    return;
+  started = true;
+  long limit = 120;
+  if (const char *e = getenv("VERIF_HANG_SECS"))
+    limit = atol(e) > 0 ? atol(e) : limit;
+  std::thread([limit]() {
+    unsigned long last = g_progress.load();
+    long quiet         = 0;
+    for (;;)
+    {
+      ::sleep(1);
+      unsigned long now = g_progress.load();
+      if (now != last || !S.active)
+      {
+        last  = now;
+        quiet = 0;
+        continue;
+      }
+      if (++quiet >= limit)
+      {
+        fprintf(stderr,
+                "[vsched] HANG: no scheduling point for %ld s of real time - a thread is blocked in or spinning on "
+                "something the scheduler does not control\n",
+                limit);
+        fflush(stderr);
+        _exit(5);
+      }
+    }
+  }).detach();
+}
+
 void point(Kind k, const void *obj)
 {
+  g_progress.fetch_add(1, std::memory_order_relaxed);
   Thr *me = self;
   if (!S.active || me == nullptr || me->noyield > 0)
     return;
@@ -716,6 +757,8 @@ void fut_set(FutImpl *f)
 Result run(const Config &cfg, const std::function<void()> &body)
 {
   assert(!S.active);
+  start_watchdog();
+  g_progress.fetch_add(1, std::memory_order_relaxed);
   S.cfg = cfg;
   S.res = Result();
   S.rng.seed(cfg.seed * 0x9E3779B97F4A7C15ULL + 12345);
